@@ -6,6 +6,8 @@ package main
 import (
 	"go/ast"
 	"go/token"
+	"os"
+	"path/filepath"
 	"strconv"
 	"strings"
 )
@@ -62,6 +64,12 @@ func genFaults() {
 				if s.Init != nil && strings.Contains(src(s.Init), "% 4") {
 					loop = append(loop, "if "+src(s.Init)+"; "+src(s.Cond))
 				}
+			case *ast.ForStmt:
+				loop = append(loop, "for "+src(s.Cond))
+			case *ast.RangeStmt:
+				if strings.Contains(src(s.Body), "w.Write(") {
+					loop = append(loop, "range "+src(s.X))
+				}
 			case *ast.ReturnStmt:
 				t := src(s)
 				if strings.Contains(t, "totalSize") {
@@ -74,6 +82,39 @@ func genFaults() {
 	facts["header.writeLoop"] = loop
 	l.p("/-- header/write.go Write: statements of the write loop, in source order -/\ndef writeLoopStmts : List String := [\n")
 	for i, s := range loop {
+		sep := ","
+		if i == 0 {
+			sep = " "
+		}
+		l.p("  %s%s\n", sep, leanStr(strconv.Quote(s)))
+	}
+	l.p("]\n\n")
+
+	// every type assertion / type switch on a value in header/, parser/ and read.go: the optional
+	// interfaces the library may ask its sources and destinations for
+	var asserts []string
+	var files []string
+	for _, dir := range []string{"header", "parser"} {
+		ents, _ := os.ReadDir(filepath.Join(repo, dir))
+		for _, e := range ents {
+			n := e.Name()
+			if strings.HasSuffix(n, ".go") && !strings.HasSuffix(n, "_test.go") && !strings.HasPrefix(n, "verif_export") {
+				files = append(files, dir+"/"+n)
+			}
+		}
+	}
+	files = append(files, "read.go", "write.go")
+	for _, rel := range files {
+		ast.Inspect(file(rel), func(n ast.Node) bool {
+			if ta, ok := n.(*ast.TypeAssertExpr); ok {
+				asserts = append(asserts, rel+": "+src(ta))
+			}
+			return true
+		})
+	}
+	facts["io.typeAsserts"] = asserts
+	l.p("/-- header/, parser/, read.go, write.go: every type assertion and type switch -/\ndef ioTypeAsserts : List String := [\n")
+	for i, s := range asserts {
 		sep := ","
 		if i == 0 {
 			sep = " "
